@@ -36,6 +36,16 @@ TRACE_PLANS = {
     "C08": [("solve:direct", 400, 8000, "act,hints", False)],
     "C09": [("solve:clean,base,unknown", 300, 5000, "", False),
             ("history:base,clean", 150, 3000, "", False)],
+    "C10": [("solve:small,base,hints,unknown", 60, 1500, "async,asynchints", False),
+            ("solve:midconflict,fan", 40, 800, "async", False),
+            ("history:base,hints", 40, 800, "async", False)],
+    "C11": [("solve:fan,base,clean", 90, 2000, "async,asynchints", False)],
+    "C12": [("cancel:small,base,hints,soft", 7, 150, "async", False),
+            ("cancel:midconflict", 3, 60, "async", False)],
+    "C13": [("history:base,hints,soft,excl,midconflict", 45, 1000, "async", True),
+            ("cancel:small,hints", 5, 100, "async", False)],
+    "C15": [("wide:1,2,3,4,5,6,7,8,9", 1, 1, "", False),
+            ("wide:15,16,17,31,32,33,40", 1, 1, "", False)],
     "C14": [("solve:softconflict", 300, 5000, "", True),
             ("solve:soft", 500, 8000, "", True),
             ("solve:softhints", 250, 4000, "", True)],
@@ -43,9 +53,13 @@ TRACE_PLANS = {
 
 # rules that also count against a property although they carry another prefix
 ALSO = {
-    "C10": ["C04_Panic", "C04_Timeout", "C04_Crash", "C09_DupDeps", "C09_DupCands"],
+    "C10": ["C04_Panic", "C04_Timeout", "C04_Crash", "C09_DupDeps", "C09_DupCands", "C02_VerdictDiffers",
+            "C02_UnsatButSatisfiable", "C01_V_RootReq", "C01_V_RootCons", "C01_V_Known", "C01_V_Req", "C01_V_Cons",
+            "C01_V_Excluded", "C01_V_Locked", "C01_V_OnePerName", "C01_DupInSolution"],
     "C12": ["C04_Panic", "C04_Timeout", "C04_Crash"],
-    "C13": ["C04_Panic", "C04_Timeout", "C04_Crash", "C09_DupDeps", "C09_DupCands", "C10_Deadlock"],
+    "C13": ["C04_Panic", "C04_Timeout", "C04_Crash", "C09_DupDeps", "C09_DupCands", "C10_Deadlock",
+            "C02_UnsatButSatisfiable", "C01_V_RootReq", "C01_V_RootCons", "C01_V_Known", "C01_V_Req", "C01_V_Cons",
+            "C01_V_Excluded", "C01_V_Locked", "C01_V_OnePerName", "C01_DupInSolution", "C01_DbNotSatisfied"],
     "C14": ["C02_UnsatButSatisfiable", "C01_V_RootReq", "C01_V_RootCons", "C01_V_Known", "C01_V_Req",
             "C01_V_Cons", "C01_V_Excluded", "C01_V_Locked", "C01_V_OnePerName", "C01_DupInSolution",
             "C01_DbNotSatisfied"],
@@ -93,7 +107,17 @@ def samples_from(traces, limit=3):
     return out
 
 
+def enable_rules(prop):
+    vlib.ENABLED_PROPS.clear()
+    vlib.ENABLED_PROPS.add(prop)
+    for r in ALSO.get(prop, []):
+        vlib.ENABLED_PROPS.add(owner(r))
+    if os.environ.get("VERIF_ALL_RULES"):
+        vlib.ENABLED_PROPS.update(f"C{i:02d}" for i in range(1, 21))
+
+
 def trace_check(prop, tier, seed, plans, t0, extra_cov=None, jobs=12, build_profiles=("release",)):
+    enable_rules(prop)
     exes = [vlib.build_harness(bp) for bp in build_profiles]
     exe = exes[0]
     wd = vlib.fresh_dir(os.path.join(vlib.WORK, prop))
